@@ -15,7 +15,7 @@ for f in os.listdir(sd):
         shutil.copy(os.path.join(sd, f), os.path.join(dst, f))
 notes = open(os.path.join(sd, "notes.md")).read() if os.path.exists(os.path.join(sd, "notes.md")) else ""
 m = re.search(r"(?im)^#+\s*(what it needs.*|needs to manifest.*|trigger.*)\n+(.+?)(\n#|\Z)", notes, re.S)
-meta = {"id": sid, "property": prop, "round": (6 if sid[-1] in "kl" else 5 if sid[-1] in "ij" else 4 if sid[-1] in "gh" else 3 if sid[-1] in "ef" else 2),
+meta = {"id": sid, "property": prop, "round": (7 if sid[-1] in "m" else 6 if sid[-1] in "kl" else 5 if sid[-1] in "ij" else 4 if sid[-1] in "gh" else 3 if sid[-1] in "ef" else 2),
         "needs_to_manifest": (m.group(2).strip()[:600] if m else "see notes.md"),
         "caught_by": caught,
         "confirmed": {"how": "tools/confirm_seed.sh: scratch worktree of /repo HEAD under /tmp; suite with the change; demo with the change; demo without the change; worktree removed",
